@@ -7,6 +7,7 @@ import (
 	"verif/harness/fw"
 	"verif/harness/pw"
 	"verif/harness/sw"
+	"verif/harness/world"
 )
 
 // Event is one delivery to the sync loop — Off is the block's offset from the initial height.
@@ -38,6 +39,23 @@ func GenChain(t *rapid.T, maxLen int) []pw.Step {
 		}
 	}
 	return steps
+}
+
+// KVify rewrites every transaction of the chain into a well-formed transaction of the reference
+// application (world.KVTx), for worlds that run the real KVExecutor.
+func KVify(steps []pw.Step) []pw.Step {
+	out := make([]pw.Step, len(steps))
+	for i, st := range steps {
+		out[i] = st
+		if len(st.Seq.Txs) > 0 {
+			txs := make([][]byte, len(st.Seq.Txs))
+			for j, tx := range st.Seq.Txs {
+				txs[j] = world.KVTx(tx)
+			}
+			out[i].Seq.Txs = txs
+		}
+	}
+	return out
 }
 
 // GenInitial draws an initial height.
